@@ -382,6 +382,7 @@ macro "py_side" : tactic =>
   `(tactic| first
     | exact Or.inl rfl
     | exact trivial
+    | (simp only [ne_eq, reduceCtorEq, not_false_eq_true, Ty.fits, Ty.bits, T3, or_true, true_or, or_self, false_or, or_false, wrap] <;> omega)
     | (simp only [ne_eq, reduceCtorEq, not_false_eq_true, Ty.fits, Ty.bits, T3, or_true, true_or, or_self, false_or, or_false, wrap, W32] <;> omega)
     | omega)
 
